@@ -1,6 +1,7 @@
 package vc
 
 import (
+	"go/token"
 	"fmt"
 	"go/types"
 	"sort"
@@ -28,45 +29,44 @@ import (
 //
 // and replaces it by head_addall(K, seq(hs)).
 func HeaderAddLoopSummary(e *FuncEnc, li *loopInfo) bool {
-	if len(li.body) != 2 {
-		return false
-	}
-	var body *ssa.BasicBlock
-	for b := range li.body {
-		if b != li.header {
-			body = b
-		}
-	}
-	if body == nil {
+	// the loop visits the elements of one slice in order (a range loop, or
+	// `for i := 0; i < len(s); i++`) and does nothing but w.Header().Add(K, s[i])
+	if len(li.body) < 2 || len(li.body) > 3 {
 		return false
 	}
 	var src ssa.Value
 	var add *ssa.Call
-	for _, in := range body.Instrs {
-		switch x := in.(type) {
-		case *ssa.IndexAddr:
-			if src != nil {
-				return false
-			}
-			src = x.X
-		case *ssa.UnOp, *ssa.Jump, *ssa.DebugRef:
-		case *ssa.Call:
-			if x.Call.IsInvoke() {
-				if x.Call.Method.Name() != "Header" {
+	var idxUse ssa.Value
+	for _, b := range li.blocks() {
+		for _, in := range b.Instrs {
+			switch x := in.(type) {
+			case *ssa.IndexAddr:
+				if src != nil {
 					return false
 				}
-				continue
-			}
-			g := x.Call.StaticCallee()
-			if g == nil || g.String() != "(net/http.Header).Add" || add != nil {
+				src, idxUse = x.X, x.Index
+			case *ssa.UnOp, *ssa.Jump, *ssa.DebugRef, *ssa.Phi, *ssa.BinOp, *ssa.If:
+			case *ssa.Call:
+				if x.Call.IsInvoke() {
+					if x.Call.Method.Name() != "Header" {
+						return false
+					}
+					continue
+				}
+				if bi, ok := x.Call.Value.(*ssa.Builtin); ok && bi.Name() == "len" {
+					continue
+				}
+				g := x.Call.StaticCallee()
+				if g == nil || g.String() != "(net/http.Header).Add" || add != nil {
+					return false
+				}
+				add = x
+			default:
 				return false
 			}
-			add = x
-		default:
-			return false
 		}
 	}
-	if src == nil || add == nil {
+	if src == nil || add == nil || !loopVisitsAll(li, src, idxUse) {
 		return false
 	}
 	if in, ok := src.(ssa.Instruction); ok && li.body[in.Block()] {
@@ -548,4 +548,69 @@ func isDigits(s string) bool {
 
 func matchPattern(pat, s string) bool {
 	return regexpMatch(pat, s)
+}
+
+// loopVisitsAll: the loop indexes `src` with a counter that runs 0, 1, ...,
+// len(src)-1: the rangeindex of a range loop over src, or a phi that starts at
+// 0, is compared `< len(src)` in the header and incremented by one.
+func loopVisitsAll(li *loopInfo, src, idx ssa.Value) bool {
+	// range loop: idx == rangeindex+1 where rangeindex is the header phi compared with len(src)
+	var phi *ssa.Phi
+	switch x := idx.(type) {
+	case *ssa.Phi:
+		phi = x
+	case *ssa.BinOp:
+		if p, ok := x.X.(*ssa.Phi); ok && x.Op == token.ADD {
+			if c, ok := x.Y.(*ssa.Const); ok && c.Int64() == 1 && p.Comment == "rangeindex" {
+				phi = p
+			}
+		}
+	}
+	if phi == nil || phi.Block() != li.header {
+		return false
+	}
+	iff, ok := li.header.Instrs[len(li.header.Instrs)-1].(*ssa.If)
+	if !ok {
+		return false
+	}
+	cmp, ok := iff.Cond.(*ssa.BinOp)
+	if !ok || cmp.Op != token.LSS {
+		return false
+	}
+	lenOf := func(v ssa.Value) bool {
+		c, ok := v.(*ssa.Call)
+		if !ok {
+			return false
+		}
+		bi, ok := c.Call.Value.(*ssa.Builtin)
+		return ok && bi.Name() == "len" && len(c.Call.Args) == 1 && c.Call.Args[0] == src
+	}
+	if !lenOf(cmp.Y) {
+		return false
+	}
+	if phi.Comment == "rangeindex" {
+		// compared value is rangeindex+1
+		inc, ok := cmp.X.(*ssa.BinOp)
+		return ok && inc.X == ssa.Value(phi)
+	}
+	if cmp.X != ssa.Value(phi) || idx != ssa.Value(phi) {
+		return false
+	}
+	for i, p := range li.header.Preds {
+		e := phi.Edges[i]
+		if li.body[p] {
+			inc, ok := e.(*ssa.BinOp)
+			if !ok || inc.Op != token.ADD || inc.X != ssa.Value(phi) {
+				return false
+			}
+			if c, ok := inc.Y.(*ssa.Const); !ok || c.Int64() != 1 {
+				return false
+			}
+		} else {
+			if c, ok := e.(*ssa.Const); !ok || c.Int64() != 0 {
+				return false
+			}
+		}
+	}
+	return true
 }
